@@ -7,8 +7,16 @@ TRUST = ("Trusted: go/packages+go/ssa of x/tools v0.29.0 (the SSA is what is exe
          "the stubs listed in the evidence file, the reference model in the harness, z3 4.8.12/cvc5 1.0. Mitigated by native replay of every "
          "counterexample and of sampled paths against the real build (go test -overlay). Holds only within the stated bounds.")
 
+def std(text):
+    return (text + " Decided per path by SMT queries over all values of the symbolic inputs within the bound; bounded symbolic execution is the right level because the defects of this code live at field-width and length boundaries that one query covers completely.",
+            "Bounds per harness are in evidence.coverage.bounds. " + TRUST,
+            "bounded symbolic execution of go/ssa + SMT (z3/cvc5), differential against a reference model written from the specification")
+
 claimed = {
  # id: (text, note, technique)
+ "C09": std("FLV muxer bytes equal an independent FLV v1 writer for symbolic flags/type/timestamp/body bytes and boundary body sizes; muxer and reference files are demuxed to identical tags under every forked read segmentation."),
+ "C10": std("FLV audio/video packagers: decode(encode(f)) == f for every valid frame with fields symbolic over their Go types; encode(decode(b)) == b for every accepted canonical body of 1-7 bytes; rate-code conversions equal the FLV/Opus definitions."),
+ "C12": std("AVC NAL units (all 256 header bytes), configuration records and samples: marshal equals an ISO/IEC 14496-15 reference writer byte for byte, unmarshal inverts both, canonical encodings re-marshal to themselves."),
  "C11": ("For every input within the bound the solver shows the assertion cannot fail on any path of the real aac code: all 65536 AudioSpecificConfigs, "
          "ADTS encode/decode with symbolic configuration and payload bytes at boundary lengths, ISO 13818-7 reference writer with symbolic header bits. "
          "Bounded symbolic execution is the right level: the defects live at bit-field boundaries that one query covers completely.",
